@@ -240,11 +240,24 @@ pub fn run(cli: Cli) -> ! {
         for p in ["Victim&serverId=0", "a#", "a?x=1", "a%26serverId%3D0", "../../x", "Notch", "", "a&username=b", "x&serverId", "%", "%zz", "a+b", "name with spaces", "&", "=&="] {
             names.push(p.to_string());
         }
+        for a in &symbols {
+            for b in &symbols {
+                names.push(format!("{a}{b}"));
+                names.push(format!("p{a}{b}q"));
+            }
+        }
+        // every byte below 0x20 and DEL on its own and between letters
+        for c in (0u8..0x20).chain([0x7f]) {
+            names.push((c as char).to_string());
+            names.push(format!("A{}41", c as char));
+        }
         if thorough {
-            for a in &symbols {
-                for b in &symbols {
-                    names.push(format!("{a}{b}"));
-                    names.push(format!("p{a}{b}q"));
+            let reduced = ["a", "&", "=", "#", "?", "%", "+", " ", "/", "\n", "\u{4}", "é"];
+            for a in reduced {
+                for b in reduced {
+                    for c in reduced {
+                        names.push(format!("{a}{b}{c}"));
+                    }
                 }
             }
         }
@@ -306,7 +319,7 @@ pub fn run(cli: Cli) -> ! {
     rep.set("requests_captured", json!(n));
     rep.set("names_refused_by_the_client_library", json!(errors.load(Ordering::Relaxed)));
     rep.set("exhaustive", json!(true));
-    rep.set("rule", json!("every name X, aXb for X in a 24-symbol alphabet (a & = # ? % + space / \\ . : @ ; \" < CR LF TAB NUL é 😀 %26 ../), 15 targeted payloads, and in thorough every XY and pXYq; x server id {\"\", \"srv\"}, two secrets; the raw request line recorded by the mock is parsed independently. Plus 8 whole connections (real Listener + Connection + MojangAdapter over TCP: login and transfer intents, names with special characters, stale / foreign / forged / valid cookies of another name) whose request must ask about the claimed name and that connection's hash. Non-trivial = the name contains a character outside [A-Za-z0-9_]."));
+    rep.set("rule", json!("every name X, aXb for X in a 24-symbol alphabet (a & = # ? % + space / \\ . : @ ; \" < CR LF TAB NUL é 😀 %26 ../), 15 targeted payloads, every XY and pXYq, every control byte alone and inside A_41, and in thorough every XYZ over a reduced alphabet of 12; x server id {\"\", \"srv\"}, two secrets; the raw request line recorded by the mock is parsed independently. Plus 8 whole connections (real Listener + Connection + MojangAdapter over TCP: login and transfer intents, names with special characters, stale / foreign / forged / valid cookies of another name) whose request must ask about the claimed name and that connection's hash. Non-trivial = the name contains a character outside [A-Za-z0-9_]."));
     rep.sample(json!({"name": "Victim&serverId=0", "server_id": "srv", "expect": "one username parameter decoding to the whole name, one serverId equal to the hash"}));
     rep.sample(json!({"name": "a#", "expect": "username decodes to 'a#'; no raw # in the request target"}));
     rep.sample(json!({"name": names[names.len() / 2]}));
